@@ -107,7 +107,7 @@ Theorem C03_rec : forall (base : mat -> list nat -> list nat -> ple_out),
   forall (cutoff : nat) (A : mat) (P0 Q0 : list nat),
   wf A -> length P0 = nr A -> length Q0 = nc A ->
   ple_spec A (ple_rec base cutoff A P0 Q0).
-Proof. intros base Hb cutoff A P0 Q0. now apply ple_rec_spec. Qed.
+Proof. exact ple_rec_spec_all. Qed.
 Print Assumptions C03_rec.
 
 (** ... and so does _mzd_pluq = block-recursive PLE + triangular column swaps *)
@@ -116,7 +116,7 @@ Theorem C03_pluq_rec : forall (base : mat -> list nat -> list nat -> ple_out),
   forall (cutoff : nat) (A : mat) (P0 Q0 : list nat),
   wf A -> length P0 = nr A -> length Q0 = nc A ->
   pluq_spec A (pluq_rec base cutoff A P0 Q0).
-Proof. intros base Hb cutoff A P0 Q0. now apply pluq_rec_spec. Qed.
+Proof. exact pluq_rec_spec_all. Qed.
 Print Assumptions C03_pluq_rec.
 
 (** the hypothesis on the base case is satisfiable: the naive routine is one *)
